@@ -4,6 +4,6 @@ out="$1"; shift
 : > "$out"
 for m in "$@"; do
 	d=${m%%:*}; p=${m##*:}
-	timeout 900 /verif/tools/try_patch.sh "$d/patch.diff" "$p" quick 2>&1 | grep RESULT >> "$out" || echo "RESULT patch=$d TIMEOUT-OR-ERROR" >> "$out"
+	timeout 2400 /verif/tools/try_patch.sh "$d/patch.diff" "$p" quick 2>&1 | grep RESULT >> "$out" || echo "RESULT patch=$d TIMEOUT-OR-ERROR" >> "$out"
 done
 echo DONE >> "$out"
